@@ -17,7 +17,7 @@ for m in . v2; do (cd "$TMP/with/$m" && go build ./... ) || { echo "FAIL: build"
 /verif/tools/baseline.sh "$TMP/with" || { echo "FAIL: baseline suite does not pass with the change"; exit 1; }
 mod=.; case "$PKG" in v2*) mod=v2;; esac
 runtest() { # dir
-  if [ -f "$SD/demo_test.go" ]; then cp "$SD/demo_test.go" "$1/$PKG/zz_demo_test.go"; else cp "$SD/demo_test.go.txt" "$1/$PKG/zz_demo_test.go"; fi
+  mkdir -p "$1/$PKG"; if [ -f "$SD/demo_test.go" ]; then cp "$SD/demo_test.go" "$1/$PKG/zz_demo_test.go"; else cp "$SD/demo_test.go.txt" "$1/$PKG/zz_demo_test.go"; fi
   (cd "$1/$PKG" && go test $RACE -vet=off -count=1 -run "$TEST" . 2>&1 | tail -15)
 }
 out=$(runtest "$TMP/with")
